@@ -84,6 +84,7 @@ class Sim:
         self.switches = 0
         self.preemptions = 0
         self.line_events = 0
+        self.quiet_depth = 0  # > 0 while a comparison dunder runs (no pre-emption points, see instrument.py)
         self.free_statements = 0
         self.free_statement_cap = cfg.get("statement_cap", 3_000_000)
         self.seq = 0  # global logical clock for history records
